@@ -220,6 +220,14 @@ pub fn run(scn: &Scenario, record: bool) -> RunResult {
                 }
             }
         }
+        if scn.drop_sr_when_done && !sr_dropped && reg.sr.is_some() && reg.reqs_issued >= reg.reqs_total
+            && scn.inline.iter().any(|s| matches!(s.act, InlineAct::DropSr))
+        {
+            // C20: the last request handle is dropped by an inline step (inside a transport callback), not here
+            sr_dropped = true;
+            let srh = reg.sr.take();
+            w.lock().unwrap().inline_sr = srh;
+        }
         if scn.drop_sr_when_done && !sr_dropped && reg.sr.is_some() && reg.reqs_issued >= reg.reqs_total {
             sr_dropped = true;
             Api { w: &w, ep: 0, task: "env" }.ev("drop_sr", 0, 0, "ok", json!({}));
@@ -257,6 +265,7 @@ pub fn run(scn: &Scenario, record: bool) -> RunResult {
             // ---- quiescence ----
             reg.nq += 1;
             let nq = reg.nq;
+            w.lock().unwrap().nq = nq;
             let mut outs = vec![];
             let mut conn = json!({"c": "none", "s": "none"});
             for s in slots.iter() {
@@ -297,8 +306,8 @@ pub fn run(scn: &Scenario, record: bool) -> RunResult {
             {
                 let parked: Vec<((usize, u32), ParkedSend)> = { let mut g = w.lock().unwrap(); g.parked_send.drain().collect() };
                 for ((ep, tag), p) in parked {
-                    let sid = p.stream.stream_id().as_u32();
-                    if let Ok(c) = catch_unwind(AssertUnwindSafe(|| p.stream.capacity())) {
+                    // (after a panic inside h2 its lock is poisoned and every getter panics: data, not a harness crash)
+                    if let Ok((sid, c)) = catch_unwind(AssertUnwindSafe(|| (p.stream.stream_id().as_u32(), p.stream.capacity()))) {
                         Api { w: &w, ep, task: "inline" }.ev("capacity", sid, tag, "ok", json!({"v": c, "census": true}));
                     }
                     w.lock().unwrap().parked_send.insert((ep, tag), p);
@@ -488,6 +497,7 @@ pub fn run(scn: &Scenario, record: bool) -> RunResult {
                             if let Some(o) = v.as_object_mut() {
                                 let held: Vec<i64> = o.get("streams").and_then(|s| s.as_array()).map(|a| a.iter().filter_map(|x| x.get("id").and_then(|i| i.as_i64())).collect()).unwrap_or_default();
                                 o.insert("streams".into(), json!(held));
+                                o.insert("unlinked".into(), json!([]));
                             }
                             g.log(json!({"t": "stats", "ep": EP[ep], "conn_done": false, "dense": true, "wblocked": wbl, "s": v}));
                         }
@@ -543,34 +553,49 @@ pub fn run(scn: &Scenario, record: bool) -> RunResult {
     // drop handles in a defined order: application handles first, then the connections.
     // With the `unstable` feature h2's stream store asserts in Drop that no stream record
     // is left; that assertion (or any other panic while dropping) is recorded as data.
-    let r = catch_unwind(AssertUnwindSafe(|| {
-        // parked handles (C20) are application handles too
-        let (ps, pr, isr, ip) = {
-            let mut g = match w.lock() { Ok(g) => g, Err(p) => p.into_inner() };
-            (std::mem::take(&mut g.parked_send), std::mem::take(&mut g.parked_recv), g.inline_sr.take(), std::mem::take(&mut g.inline_ping))
-        };
-        drop(ps);
-        drop(pr);
-        drop(isr);
-        drop(ip);
-        drop(spawn);
-        let mut conns = vec![];
-        for s in slots.drain(..) {
-            if s.task.is_conn() {
-                conns.push(s);
-            }
+    // Every stage is guarded on its own: a panic while dropping one handle (e.g. a poisoned lock after an earlier panic
+    // inside the library) must not leave the others to be dropped outside of any guard.
+    let mut drop_failures = 0usize;
+    let mut stage = |f: Box<dyn FnOnce() + '_>| {
+        if catch_unwind(AssertUnwindSafe(f)).is_err() {
+            drop_failures += 1;
+            let msg = LAST_PANIC.with(|p| p.borrow().clone());
+            let mut g = match w.lock() {
+                Ok(g) => g,
+                Err(p) => p.into_inner(),
+            };
+            g.log(json!({"t": "drop_panic", "at": "end", "msg": msg}));
         }
-        drop(reg);
-        drop(conns);
-    }));
-    if r.is_err() {
-        let msg = LAST_PANIC.with(|p| p.borrow().clone());
-        let mut g = match w.lock() {
-            Ok(g) => g,
-            Err(p) => p.into_inner(),
-        };
-        g.log(json!({"t": "drop_panic", "at": "end", "msg": msg}));
+    };
+    // parked handles (C20) are application handles too
+    let (ps, pr, isr, ip) = {
+        let mut g = match w.lock() { Ok(g) => g, Err(p) => p.into_inner() };
+        (std::mem::take(&mut g.parked_send), std::mem::take(&mut g.parked_recv), g.inline_sr.take(), std::mem::take(&mut g.inline_ping))
+    };
+    for (_, p) in ps {
+        stage(Box::new(move || drop(p)));
     }
+    for (_, p) in pr {
+        stage(Box::new(move || drop(p)));
+    }
+    stage(Box::new(move || drop(isr)));
+    stage(Box::new(move || drop(ip)));
+    for t in spawn.drain(..) {
+        stage(Box::new(move || drop(t)));
+    }
+    let mut conns = vec![];
+    for s in slots.drain(..) {
+        if s.task.is_conn() {
+            conns.push(s);
+        } else {
+            stage(Box::new(move || drop(s)));
+        }
+    }
+    stage(Box::new(move || drop(reg)));
+    for s in conns {
+        stage(Box::new(move || drop(s)));
+    }
+    let r: Result<(), ()> = if drop_failures > 0 { Err(()) } else { Ok(()) };
     let g = match w.lock() {
         Ok(g) => g,
         Err(p) => p.into_inner(),
